@@ -174,7 +174,8 @@ class DepartureRun(PubSubRun):
         if second is None:
             second = ch.weighted("dep.second", [(3, "none"), (2, "fin"), (2, "wfault"), (1, "rst"), (1, "disconnect")])
         self.res.enumerated.setdefault("stage_way", set()).add(f"{stage}/{way}/{second}")
-        v = self.make_victim(stage, 30, b"victim")
+        vname = ch.weighted("dep.vname", [(6, b"victim"), (1, b"caf\xc3\xa9"), (1, b"\xff\xfe"), (1, b"v[/]\\")])
+        v = self.make_victim(stage, 30, vname)
         v2 = None
         if second != "none":
             st2 = ch.choose("dep.stage2", ["sub_types", "sub_all", "logger", "connected"])
@@ -297,7 +298,7 @@ class DepartureRun(PubSubRun):
                         res.add("C07", "client_closed_fields",
                                 f"CLIENT_CLOSED for conn {conn} says id={ci.mod_id} name={ci.name!r}, "
                                 f"expected id={want_id} name={m.name!r}")
-                    if bool(ci.is_logger) != bool(m.is_logger):
+                    if want_id != -1 and bool(ci.is_logger) != bool(m.is_logger):
                         res.add("C07", "client_closed_fields", f"CLIENT_CLOSED for conn {conn} is_logger={ci.is_logger}")
             elif n:
                 res.add("C07", "client_closed_spurious", f"{n} CLIENT_CLOSED for conn {conn} which the manager never closed")
